@@ -1,5 +1,6 @@
 (* C03: enumeration reproduces the key set exactly, once each, in order, with lookup's ids. *)
-From X Require Import Builder IfaceBuild Base Arr Dac Trie Serial Spec Wf IfaceQuery SerialFacts All AllBuild Examples ExampleFacts.
+From X Require Import Builder IfaceBuild Base Arr Dac Trie Serial Spec Wf IfaceQuery SerialFacts All AllBuild Examples ExampleFacts
+  AccessLib AccessGen AccessDispatch AccessTrieGen IfaceAccessTrie AllAccessTrie.
 Local Open Scope N_scope.
 
 Theorem C03_enumerate : forall v L P K, wf_for v L P K -> enumerate P = Ok (with_ids P K).
@@ -20,10 +21,21 @@ Theorem C03_for_all_valid_K : forall v tbl K req, valid_keys K = true -> small_k
   forall m, pred_calls P (mk_predictive []) m = Ok (abs_calls (with_ids P K) m).
 Proof. exact headline_enumerate. Qed.
 
+(* the same for the enumerating iterator as REGENERATED FROM trie.hpp on every run (trg_next_predictive on the empty query) *)
+Theorem C03_source_enumerate_iterator : forall v L P K, wf_for v L P K -> forall n,
+  N.of_nat n * (bc_num_units (t_bc P) + 2) < 2^61 ->
+  pred_calls_g P (mk_predictive []) n = Ok (abs_calls (with_ids P K) n).
+Proof. exact src_enumerate. Qed.
+Example C03_source_example : match ex_trie V7 with
+  | Ok P => match pred_calls_g P (mk_predictive []) 7 with
+            | Ok l => map (option_map snd) l = map Some ex_keys ++ [None] | _ => False end
+  | _ => False end.
+Proof. vm_compute. reflexivity. Qed.
+
 Example C03_nonvacuous : forall v, exists L P, ex_logical v = Ok L /\ wf_for v L P ex_keys.
 Proof. exact ex_wf_for. Qed.
 Example C03_example : match ex_trie V7 with Ok P => match enumerate P with Ok l => map snd l = ex_keys | _ => False end | _ => False end.
 Proof. vm_compute. reflexivity. Qed.
 
 Print Assumptions C03_enumerate. Print Assumptions C03_enumerate_iterator. Print Assumptions C03_loaded. Print Assumptions C03_mapped.
-Print Assumptions C03_for_all_valid_K.
+Print Assumptions C03_for_all_valid_K. Print Assumptions C03_source_enumerate_iterator.
